@@ -246,7 +246,21 @@ def trace_validate(ctx):
     v = r["vectors"][-1]
     if v["n"] != len(rows):
         raise vlib.Inconclusive("trace spec consumed %s of %d lines" % (v["n"], len(rows)))
-    return rows, sorted(v["bad"]), sorted(v["mism"])
+    bad = sorted(v["bad"])
+    # Binding demonstration of direction B: one corrupted line must be rejected.
+    head = [dict(x) for x in rows[:200]]
+    j = next((i for i, x in enumerate(head) if x["k"] == "eval" and (i + 1) not in bad), None)
+    if j is None:
+        raise vlib.Inconclusive("no accepted eval line among the first 200 trace lines")
+    head[j]["got"] = 1 - head[j]["got"]
+    cpath = ctx.path("c18_trace_corrupt.ndjson")
+    vlib.write_ndjson(cpath, head)
+    rc_ = ctx.tlc("TraceSchedule", "TraceSchedule.cfg", workers=1, timeout=300, extra_files=[(cpath, "trace.ndjson")])
+    cv = rc_["vectors"][-1] if rc_["vectors"] else {"bad": []}
+    if (j + 1) not in cv["bad"]:
+        raise vlib.Inconclusive("TraceSchedule accepted a corrupted line (%d)" % (j + 1))
+    ctx.cov["binding_demo_trace"] = {"corrupted_line": j + 1, "field": "got", "rejected": True}
+    return rows, bad, sorted(v["mism"])
 
 
 def trace_case(row):
@@ -324,8 +338,10 @@ def run(ctx):
             known_rows += 1
         ctx.disagreement(k, r, describe(r))
     arows, asumm = go_apply(ctx, vin, every=max(1, n_rows // (4000 if ctx.quick else 40000)))
-    if asumm["evals"] < 200:
-        raise vlib.Inconclusive("filtering path evaluated only %d instants" % asumm["evals"])
+    if asumm["evals"] < 200 or asumm["skipped"] > asumm["evals"] // 20:
+        raise vlib.Inconclusive("filtering path evaluated only %d instants (%d skipped)" % (asumm["evals"], asumm["skipped"]))
+    if not 0 < asumm["blocked"] < asumm["evals"]:
+        raise vlib.Inconclusive("vacuous: filtering path saw %d blocked of %d" % (asumm["blocked"], asumm["evals"]))
     known_apply = 0
     for r in arows:
         if r.get("kind") != "bad":
@@ -339,21 +355,36 @@ def run(ctx):
     trows, tbad, tmism = trace_validate(ctx)
     if len(tmism) > 0:
         raise vlib.Inconclusive("trace abstraction mismatch on %d lines, e.g. %s" % (len(tmism), trows[tmism[0] - 1]))
-    tknown, trepro = 0, 0
-    for i in tbad[:400]:
-        row = trows[i - 1]
-        rec, vec = trace_record(row, i)
-        # reproduce in isolation through the replay entry point
-        if vec is not None:
-            rr, _, _ = go_replay(ctx, [vec], tag="t%d" % i) if trepro < 5 else ([{"kind": "bad"}], None, None)
-            trepro += 1
-            if not any(x.get("kind") == "bad" for x in rr):
-                ctx.notes.append("trace line %d not reproduced" % i)
+    # Every rejected line is re-executed in isolation (one batch through the
+    # replay entry point) before it counts.
+    tknown, tunrepro = 0, 0
+    recs, vecs = {}, []
+    for i in tbad[:5000]:
+        rec, vec = trace_record(trows[i - 1], i)
+        recs[rec["c"]] = (rec, trows[i - 1])
+        vecs.append(vec)
+    if vecs:
+        rr, _, _ = go_replay(ctx, vecs, tag="t")
+        again = {}
+        for x in rr:
+            if x.get("kind") in ("bad", "week"):
+                again[x.get("c")] = x
+        for cid, (rec, row) in sorted(recs.items()):
+            x = again.get(cid)
+            if row["k"] == "ser":
+                ok = x is not None and x.get("kind") == "week" and x["ser"] == row["ser"]
+            else:
+                ok = x is not None and x.get("kind") == "bad"
+            if not ok:
+                tunrepro += 1
+                ctx.notes.append("trace line %s not reproduced in isolation" % cid)
                 continue
-        k = classify(rec, {rec["c"]: trace_case(row)}) if row["k"] == "eval" else None
-        if k:
-            tknown += 1
-        ctx.disagreement(k, rec, describe(rec))
+            k = classify(rec, {rec["c"]: trace_case(row)}) if row["k"] == "eval" else None
+            if k:
+                tknown += 1
+            ctx.disagreement(k, rec, describe(rec))
+    if tunrepro > 5:
+        raise vlib.Inconclusive("%d rejected trace lines did not reproduce" % tunrepro)
 
     nontriv = sum(1 for v in evecs for p in v["pts"] if 0 < p[4] and v["w"][p[3]] != [0, 0] and v["w"][p[3]] != [0, DAY])
     samples = [
@@ -377,12 +408,14 @@ def run(ctx):
         "tables": len(evecs), "table_rows": n_rows, "rows_expected_true": summ["true"],
         "rows_of_tables_refused_by_decoders": summ["unbuilt_rows"],
         "serialisation_vectors": len(sers),
-        "filtering_path_evaluations": asumm["evals"],
+        "filtering_path_evaluations": asumm["evals"], "filtering_path_blocked": asumm["blocked"],
         "trace_lines": len(trows), "trace_lines_rejected": len(tbad),
         "rows_matching_known_finding": known_rows + known_apply + tknown,
         "truncated_by_known_finding": 0,
         "flaky": sum(1 for r in rows + arows if r.get("kind") == "flaky"),
         "exhaustive": not ctx.quick,
+        "binding_demo": {"trace": ctx.cov.get("binding_demo_trace"),
+                         "mutations": "see notes/C18.md (10 code mutations, all caught)"},
         "samples": samples, "notes": ctx.notes,
     }
     return ctx.finish("model_checking", cov, assumptions=[
@@ -403,18 +436,27 @@ def describe(r):
 
 
 def trace_record(row, i):
-    """Replay record + one-row vector for a trace line TLC rejected."""
+    """Replay record + isolated-re-run vector for a trace line TLC rejected."""
+    cid = "trace:%d" % i
     if row["k"] == "eval":
         want = 0 if row["got"] == 1 else 1
         pt = [row["s"], row["n"], row["off"], row["wd"], row["tod"], want, (row["s"] + row["off"]) // DAY]
-        rec = {"what": "contains", "c": "trace:%d" % i, "zone": row["zone"], "shape": "trace", "w": row["w"],
+        rec = {"what": "contains", "c": cid, "zone": row["zone"], "shape": "trace", "w": row["w"],
                "pt": pt, "range": row["w"][row["wd"]], "want": bool(want), "got": bool(row["got"]),
                "local": "wd %d tod %d off %d" % (row["wd"], row["tod"], row["off"]), "trace_line": i}
-        vec = {"k": "eval", "c": rec["c"], "zone": row["zone"], "shape": "trace", "w": row["w"], "pts": [pt]}
+        vec = {"k": "eval", "c": cid, "zone": row["zone"], "shape": "trace", "w": row["w"], "pts": [pt]}
         return rec, vec
-    rec = {"what": "ser:trace:" + row["k"], "c": "trace:%d" % i, "zone": row["zone"], "w": row["w"],
-           "ser": row["ser"], "detail": "%s %s" % (row.get("via"), row.get("detail")), "trace_line": i}
-    return rec, None
+    if row["k"] == "build":
+        rec = {"what": "build", "c": cid, "zone": row["zone"], "shape": "trace", "w": row["w"],
+               "detail": "%s %s" % (row.get("via"), row.get("detail")), "trace_line": i}
+        vec = {"k": "eval", "c": cid, "zone": row["zone"], "shape": "trace", "w": row["w"], "pts": []}
+        return rec, vec
+    rec = {"what": "ser:trace", "c": cid, "zone": row["zone"], "wms": row["w"], "ser": row["ser"],
+           "detail": "json accepted=%s yaml accepted=%s round trips ok=%s %s %s (ranges in ms: %s)" % (
+               row["ser"][0], row["ser"][1], row["ser"][2], row.get("via"), row.get("detail"), row["w"]),
+           "trace_line": i}
+    vec = {"k": "week", "c": cid, "zone": row["zone"], "wms": row["w"]}
+    return rec, vec
 
 
 def replay(ctx, path):
@@ -440,5 +482,18 @@ def replay(ctx, path):
         bad = [r for r in rows if r.get("kind") == "bad"]
         print(json.dumps({"expected": rec["verdicts"], "observed": [b.get("what") for b in bad] or "admissible"}, indent=1))
         return 1 if bad else 0
-    print(json.dumps({"record": rec, "note": "trace-only record: re-run ./check C18 with the same VERIF_SEED"}, indent=1))
+    if "wms" in rec:
+        rows, _, _ = go_replay(ctx, [{"k": "week", "c": "replay", "zone": rec["zone"], "wms": rec["wms"]}], tag="r")
+        obs = [r["ser"] for r in rows if r.get("kind") == "week"]
+        print(json.dumps({"ranges_ms": rec["wms"], "recorded [json accepted, yaml accepted, round trips ok]": rec["ser"],
+                          "observed": obs}, indent=1))
+        return 1 if obs and obs[0] == rec["ser"] else 0
+    if rec.get("what") == "build":
+        rows, _, _ = go_replay(ctx, [{"k": "eval", "c": "replay", "zone": rec["zone"], "shape": "replay",
+                                      "w": rec["w"], "pts": []}], tag="r")
+        bad = [r for r in rows if r.get("kind") == "bad"]
+        print(json.dumps({"schedule_seconds": rec["w"], "expected": "accepted unchanged",
+                          "observed": [b.get("err") for b in bad] or "accepted unchanged"}, indent=1))
+        return 1 if bad else 0
+    print(json.dumps({"record": rec, "note": "unknown record shape"}, indent=1))
     return 2
